@@ -148,12 +148,12 @@ def _keep_direction(com_axis, axes):
     direction of their own) may meet first: when all the axes are sorted the same way, make sure the result is too
     """
     values = [ax.values for ax in axes if ax.size > 0 and ax.values[0] is not None]
+    if not (all(is_numeric(v) for v in values) or all(isinstance(x, str) for v in values for x in v)):
+        return com_axis # (labels of mixed types cannot be compared)
     if not all(is_monotonic(v) for v in values):
         return com_axis
     slopes = set(bool(v[-1] >= v[0]) for v in values if v.size > 1)
     if len(slopes) != 1:
-        return com_axis
-    if not (all(is_numeric(v) for v in values) or all(isinstance(x, str) for v in values for x in v)):
         return com_axis
     joined = np.sort(com_axis.values)
     if not slopes.pop():
